@@ -214,7 +214,7 @@ func (u *UnitsDefinition) FormatLongFloat(data float64) string {
 	for _, multiplier := range u.getSortedMultipliersCache() {
 		base := int64(math.Floor(remainder / float64(multiplier)))
 		remainder -= float64(base * multiplier)
-		output += u.Multipliers()[multiplier].FormatLongFloat(float64(base), false)
+		output += u.Multipliers()[multiplier].FormatLongInt(base, false)
 	}
 	output += u.BaseUnit().FormatLongFloat(remainder, false)
 	return output
